@@ -53,6 +53,22 @@ Theorem T16_dispatch : forall cfg h,
 Proof. exact (fun cfg h => conj eq_refl (conj eq_refl (conj eq_refl eq_refl))). Qed.
 Print Assumptions T16_dispatch.
 
+(* What an upstream proxy sees on a CONNECT is NOT the connect rules applied once in
+   order: the wiring applies them a second time to an empty header and copies that over
+   (known finding, see known_findings.d/C16.json).  Witness: client sends X: c, rule "X: v". *)
+Theorem T16_connect_upstream_refuted : exists cfg h,
+  hmap_eqb (connect_upstream_view cfg h) (dispatch cfg ReqConnect h) = false.
+Proof. exact (ex_intro _ {| request_rules := []; connect_rules := [mk 3 (b "X") (b "v")]; response_rules := [] |}
+               (ex_intro _ [(b "X", [b "c"])] eq_refl)). Qed.
+Print Assumptions T16_connect_upstream_refuted.
+
+(* Strongest true statement: every field the second application does not bind is as documented. *)
+Theorem T16_connect_upstream_partial : forall cfg h k,
+  raw_get k (apply_rules (connect_rules cfg) []) = None ->
+  raw_get k (connect_upstream_view cfg h) = raw_get k (dispatch cfg ReqConnect h).
+Proof. exact connect_view_partial. Qed.
+Print Assumptions T16_connect_upstream_partial.
+
 (* The run-time oracle evaluated on the implementation's outputs is sound. *)
 Theorem T16_oracle_sound : forall r h h', step_prop_ok r h h' = true -> Spec r h h'.
 Proof. exact step_prop_ok_sound. Qed.
